@@ -124,6 +124,28 @@ pub fn check_frame(addr: u16, ty: u8, data: &[u8], rep: &mut Report) {
                 bad.push(("accessors", sig.clone(), format!("into_data gives {:?} ({})", taken, label)));
             }
         }
+        // frames with the same address, type, length AND checksum but other data (the data reversed; one byte up and its
+        // neighbour down) are encoded right after this one, and this one again after them: each line carries its own data
+        if data.len() >= 2 && (data.len() <= 24 || (u32::from(addr) ^ u32::from(ty)) % 16 == 5) {
+            let rev: Vec<u8> = data.iter().rev().copied().collect();
+            let mut shifted = data.to_vec();
+            shifted[0] = shifted[0].wrapping_add(1);
+            shifted[1] = shifted[1].wrapping_sub(1);
+            let _ = owned.to_bytes_with_newline();
+            for twin in [rev, shifted] {
+                let t = Frame::new(Address(addr), MsgType(ty), Data::try_new(twin.clone()).expect("<=255"));
+                let got = t.to_bytes_with_newline();
+                let mut sink: Vec<u8> = vec![];
+                let wrote = t.write(&mut sink).is_ok();
+                if got != refs::enc_crlf(addr, ty, &twin) || !wrote || sink != got {
+                    bad.push(("equal_sum_twin_encoded_wrongly", show_bytes(&refs::enc_crlf(addr, ty, &twin)), format!("{} / written {}", show_bytes(&got), show_bytes(&sink))));
+                }
+                let again = owned.to_bytes_with_newline();
+                if again != want_nl {
+                    bad.push(("equal_sum_twin_encoded_wrongly", show_bytes(&want_nl), format!("{} (the frame itself, after its twin)", show_bytes(&again))));
+                }
+            }
+        }
         // a frame that has been encoded is refilled from another (clone_from) and encoded again: it is the other frame now
         if data.len() <= 24 || (u32::from(addr) ^ u32::from(ty)) % 16 == 3 {
             let mut target = Frame::new(Address(addr ^ 0x0101), MsgType(ty.wrapping_add(7)), Data::try_new(vec![0x5A; (data.len() + 3) % 256]).expect("<=255"));
